@@ -9,8 +9,26 @@ from .model import need, own_nodes
 from .rules import common
 
 
+def check_node_truthiness(run, rule):
+    """`if self.parent:` / `while node:` read a Node's truth value: it must be that of a plain object (always true), which holds
+    only while the class defines neither __bool__ nor __len__ (a span-length __len__ makes zero-width nodes falsy)."""
+    nm = run.prog.mod("node")
+    bad = sorted(q.split(".", 1)[1] for q in nm.funcs if q in ("Node.__bool__", "Node.__len__"))
+    if "Node.__bool__" in nm.funcs:
+        body = [s_ for s_ in nm.funcs["Node.__bool__"].node.body if not (isinstance(s_, ast.Expr) and isinstance(s_.value, ast.Constant))]
+        if len(body) == 1 and isinstance(body[0], ast.Return) and isinstance(body[0].value, ast.Constant) and body[0].value.value is True:
+            bad = []    # an explicit `return True` takes precedence over any __len__
+    cls = nm.classes.get("Node")
+    bases = [norm_src(b) for b in getattr(cls, "bases", [])] if cls is not None else []
+    run.ob(rule, "node.Node/truth-value-is-identity", not bad and not [b for b in bases if b != "object"], f"{nm.rel}:1",
+           "a Node is always true: the parent tests in Node.original / make_label mean 'there is a parent', not 'the parent's span is non-empty'",
+           f"Node defines {bad}: a node whose span (or length) is zero is falsy, so `if self.parent` takes the no-parent arm for its children"
+           if bad else f"Node inherits from {bases}", mech="class protocol census")
+
+
 def check_original(run, rule):
     """Node.original is parent.value[start:end] when a parent exists, else value."""
+    check_node_truthiness(run, rule)
     nm = run.prog.mod("node")
     need("Node.original" in nm.funcs, "anchor: Node.original not found")
     fi = nm.funcs["Node.original"]
